@@ -20,6 +20,23 @@ using namespace nano;
 
 namespace
 {
+// "a task's exception" is any C++ exception: the throwing tasks rotate through a standard exception, a plain struct, an integer and a string
+struct task_failure_t
+{
+    int code{7};
+};
+
+[[noreturn]] void throw_any(const int64_t salt)
+{
+    switch (salt % 4)
+    {
+    case 0: throw std::runtime_error("task failure");
+    case 1: throw task_failure_t{};
+    case 2: throw 42;
+    default: throw std::string("task failure");
+    }
+}
+
 struct ev_t
 {
     const char* e{nullptr};
@@ -297,7 +314,7 @@ void small_case(vt::Rng& rng, int64_t icase)
                             emit("End", {c, k, begin, end, static_cast<int64_t>(tnum), inl ? 1 : 0, threw ? 1 : 0});
                             if (threw)
                             {
-                                throw std::runtime_error("task failure");
+                                throw_any(begin);
                             }
                         };
                         emit("MapCall", {c, k, call.n, call.chunk, call.raise ? 1 : 0});
@@ -316,7 +333,7 @@ void small_case(vt::Rng& rng, int64_t icase)
                                     [&](int64_t begin, int64_t end, size_t tnum) { body(begin, end, tnum); }, call.raise);
                             }
                         }
-                        catch (const std::runtime_error&)
+                        catch (...)
                         {
                             outcome = 1;
                         }
@@ -484,7 +501,7 @@ void big_case(vt::Rng& rng, int64_t icase, const int ctor = -1)
                         }
                         if (threw)
                         {
-                            throw std::runtime_error("task failure");
+                            throw_any(begin);
                         }
                     };
                     try
@@ -501,7 +518,7 @@ void big_case(vt::Rng& rng, int64_t icase, const int ctor = -1)
                                 out.raise != 0);
                         }
                     }
-                    catch (const std::runtime_error&)
+                    catch (...)
                     {
                         out.outcome = 1;
                     }
